@@ -242,14 +242,25 @@ func apacheToCassandraType(t string) string {
 	t = strings.Replace(t, apacheCassandraTypePrefix, "", -1)
 	t = strings.Replace(t, "(", "<", -1)
 	t = strings.Replace(t, ")", ">", -1)
-	types := strings.FieldsFunc(t, func(r rune) bool {
-		return r == '<' || r == '>' || r == ','
-	})
-	for _, typ := range types {
-		t = strings.Replace(t, typ, getApacheCassandraType(typ).String(), -1)
+	// translate each class name where it stands (replacing every name in the whole string, once
+	// per name, made the result grow exponentially with the number of names)
+	var sb strings.Builder
+	start := 0
+	flush := func(end int) {
+		if end > start {
+			sb.WriteString(getApacheCassandraType(t[start:end]).String())
+		}
 	}
+	for i := 0; i < len(t); i++ {
+		if c := t[i]; c == '<' || c == '>' || c == ',' {
+			flush(i)
+			sb.WriteByte(c)
+			start = i + 1
+		}
+	}
+	flush(len(t))
 	// This is done so it exactly matches what Cassandra returns
-	return strings.Replace(t, ",", ", ", -1)
+	return strings.Replace(sb.String(), ",", ", ", -1)
 }
 
 func getApacheCassandraType(class string) Type {
